@@ -535,7 +535,9 @@ func (rt *runtime) convertCallParameter(v Value, t reflect.Type) (reflect.Value,
 			// (String.fromCharCode); Convert: t may be a named string type.
 			return reflect.ValueOf(v.string()).Convert(t), nil
 		case valueNumber:
-			return reflect.ValueOf(fmt.Sprintf("%v", v.value)).Convert(t), nil
+			// The JavaScript spelling (ToString), as stores into []string elements
+			// use; %v printed 1e-07, +Inf, -0, 1.2345678901234568e+20.
+			return reflect.ValueOf(v.string()).Convert(t), nil
 		}
 	case reflect.Int, reflect.Int8, reflect.Int16, reflect.Int32, reflect.Int64, reflect.Uint, reflect.Uint8, reflect.Uint16, reflect.Uint32, reflect.Uint64, reflect.Float32, reflect.Float64:
 		if v.kind == valueNumber {
